@@ -51,7 +51,8 @@ TEXT = {
     },
     "C11": {
         "text": "Exploration: thousands of random account pairs derive contact groups on both sides (cached, recomputed, after restart, on an imported sibling device, in varying order of first use) with a collision census over identifiers and secrets; "
-                "random multi-member groups check member/device key derivation across devices and restarts; export/import reproduction; a catalogue of refused imports (used store after each kind of first use, RSA/Secp256k1/ECDSA, truncated/garbage/equal keys).",
+                "random multi-member groups check member/device key derivation across devices and restarts; export/import reproduction; a catalogue of refused imports (used store after each kind of first use, RSA/Secp256k1/ECDSA, truncated/garbage/equal keys; a refused import must neither change an existing key nor install an imported one); "
+                "concurrent first use of a fresh store with seeded delays around every datastore access (all callers must be handed the identity the store keeps).",
         "note": "Independence is observed as absence of collisions over the sample, not proved. Swapped blobs are outside the statement.",
         "technique": "runtime monitoring: symmetry/independence/refusal oracle over random key material on real secret stores",
     },
@@ -108,7 +109,7 @@ TEXT = {
         "technique": "runtime monitoring: forced interleavings via build-overlay sync points + conservation oracle at counter/goroutine-defined quiescence",
     },
     "C12": {
-        "text": "Exploration: every single-bit flip, field removal, group-type substitution and cross-group field swap of random invitations is decoded, classified (protected part changed or not) and handed to the real GroupJoin on an account group; "
+        "text": "Exploration: every single-bit flip, field removal, group-type substitution and cross-group field swap of random invitations, plus invitations forged from nothing but the public replication descriptor, is decoded, classified (protected part changed or not) and handed to the real GroupJoin on an account group; "
                 "the identity used after an honest join is compared with the account identity; replication descriptors of groups of all types are searched for the secret, tried against every metadata envelope, message header and payload of a session of the full group, and compared by access-controller and log address.",
         "note": "Manipulations of parts the statement does not protect (link key signature, extra fields) are run for no-panic only.",
         "technique": "runtime monitoring: accept/refuse oracle over an exhaustive single-bit and field manipulation catalogue; descriptor-opens-nothing oracle",
